@@ -42,6 +42,7 @@ Record effect_table := mkT {
   classes : list (string * list string);   (* class -> itself and all its ancestors *)
   writes : list write_entry;
   set_iters : list iter_entry;
+  raise_iters : list iter_entry;            (* set iterations feeding only the message of a raised exception (no text) *)
   analysed : list string;                   (* every function the extraction looked at *)
   excluded : list string                    (* parameter collectors: mutated on purpose, outside the property *)
 }.
